@@ -434,11 +434,15 @@ func fnHello(ctx *cmdContext, args map[string]any) (output respValue, err error)
 						return
 					}
 				}
+				ctx.cs.mu.Lock()
 				ctx.cs.name = str
+				ctx.cs.mu.Unlock()
 			}
 		}
 		if hasVer {
+			ctx.cs.mu.Lock()
 			ctx.cs.respVersion = int(ver)
+			ctx.cs.mu.Unlock()
 		}
 	}
 
